@@ -18,7 +18,7 @@ Proof. unfold firstN, len. rewrite Nnat.Nat2N.id. apply firstn_all. Qed.
 Lemma skipN_all {A} (c : list A) : skipN (len c) c = [].
 Proof. unfold skipN, len. rewrite Nnat.Nat2N.id. apply skipn_all. Qed.
 Lemma visible_full c : visible (full c) = c.
-Proof. unfold visible, full. cbn [lim rem]. apply firstN_all. Qed.
+Proof. rewrite visible_eq. unfold full. cbn [lim rem]. apply firstN_all. Qed.
 Lemma avail_full c : avail (full c) = len c.
 Proof. unfold avail, full. cbn [lim rem]. lia. Qed.
 
